@@ -1,0 +1,15 @@
+//go:build verif
+
+package font
+
+// VerifExtentsCache exposes the glyph extents cache of the face (verification hook, C13):
+// its length and the glyph ids of the valid cells with their cached extents.
+func (f *Face) VerifExtentsCache() (n int, valid []GID, extents []GlyphExtents) {
+	for i, c := range f.extentsCache {
+		if c.valid {
+			valid = append(valid, GID(i))
+			extents = append(extents, c.extents)
+		}
+	}
+	return len(f.extentsCache), valid, extents
+}
